@@ -346,6 +346,7 @@ func genC16(ctx *fw.Ctx) []fw.Case {
 		cases = append(cases, fw.Case{ID: fmt.Sprintf("universe/%d", i), Run: func(r *fw.Rec) { c16Universe(r, i) }})
 	}
 	cases = append(cases, fw.Case{ID: "number-spellings", Run: c16NumberSpellings})
+	cases = append(cases, fw.Case{ID: "edit-after-query", Run: c16EditAfterQuery})
 	return cases
 }
 
@@ -718,5 +719,84 @@ func c16NumberSpellings(r *fw.Rec) {
 			continue
 		}
 		r.Nontrivial("number-spelling:" + p.text)
+	}
+}
+
+// c16EditAfterQuery: types are mutable objects (a struct gets its name or its
+// body after it was created, a signature becomes variadic); equality and
+// spelling of the types built on them must follow the edit, also when they were
+// queried before it (nothing derived from a type may be remembered across an
+// edit of its components).
+func c16EditAfterQuery(r *fw.Rec) {
+	wrap := []struct {
+		name string
+		mk   func(t types.Type) types.Type
+	}{
+		{"ptr", func(t types.Type) types.Type { return types.NewPointer(t) }},
+		{"ptr-ptr", func(t types.Type) types.Type { return types.NewPointer(types.NewPointer(t)) }},
+		{"arr-of-ptr", func(t types.Type) types.Type { return types.NewArray(2, types.NewPointer(t)) }},
+		{"func-returning-ptr", func(t types.Type) types.Type { return types.NewFunc(types.NewPointer(t), types.I32) }},
+		{"struct-with-ptr", func(t types.Type) types.Type { return types.NewStruct(types.I8, types.NewPointer(t)) }},
+		{"vec-of-ptr", func(t types.Type) types.Type { return types.NewVector(2, types.NewPointer(t)) }},
+	}
+	type edit struct {
+		name  string
+		fresh func() types.Type  // the component before the edit
+		apply func(t types.Type) // the edit, in place
+		after func() types.Type  // a component built directly in the edited shape (nil: identity only)
+		named bool               // the edit gives the component a name (then it equals only itself)
+	}
+	edits := []edit{
+		{"name-a-struct", func() types.Type { return types.NewStruct(types.I32) }, func(t types.Type) { t.(*types.StructType).SetName("S") }, nil, true},
+		{"append-a-field", func() types.Type { return types.NewStruct(types.I32) }, func(t types.Type) { st := t.(*types.StructType); st.Fields = append(st.Fields, types.I8) },
+			func() types.Type { return types.NewStruct(types.I32, types.I8) }, false},
+		{"make-variadic", func() types.Type { return types.NewFunc(types.Void, types.I32) }, func(t types.Type) { t.(*types.FuncType).Variadic = true },
+			func() types.Type { f := types.NewFunc(types.Void, types.I32); f.Variadic = true; return f }, false},
+		{"pack-a-struct", func() types.Type { return types.NewStruct(types.I32, types.I8) }, func(t types.Type) { t.(*types.StructType).Packed = true },
+			func() types.Type { s := types.NewStruct(types.I32, types.I8); s.Packed = true; return s }, false},
+		{"change-array-length", func() types.Type { return types.NewArray(2, types.I8) }, func(t types.Type) { t.(*types.ArrayType).Len = 3 },
+			func() types.Type { return types.NewArray(3, types.I8) }, false},
+	}
+	for _, e := range edits {
+		for _, w := range wrap {
+			for _, query := range []bool{false, true} {
+				comp := e.fresh()
+				outer := w.mk(comp)
+				before := w.mk(e.fresh())
+				if query {
+					// the observations an earlier print or comparison would make
+					_ = outer.String()
+					_ = outer.LLString()
+					_ = outer.Equal(before)
+					_ = types.Equal(before, outer)
+				}
+				e.apply(comp)
+				r.Eval(1)
+				tag := fmt.Sprintf("%s/%s/query=%v", e.name, w.name, query)
+				sameComp := w.mk(comp)
+				fail := func(what string) {
+					r.Violate(fw.Violation{Key: "edit-after-query/" + e.name + "/" + w.name, Input: tag, What: what})
+				}
+				if !outer.Equal(sameComp) || !sameComp.Equal(outer) {
+					fail(fmt.Sprintf("after the edit, %s (built before the edit%s) is not equal to the same construction over the same, edited component (%s)", outer, map[bool]string{true: " and queried", false: ""}[query], sameComp))
+					continue
+				}
+				if outer.String() != sameComp.String() {
+					fail(fmt.Sprintf("after the edit, the type built before it%s is spelled %s, the same construction built now is spelled %s", map[bool]string{true: " and queried", false: ""}[query], outer, sameComp))
+					continue
+				}
+				if outer.Equal(before) || before.Equal(outer) {
+					fail(fmt.Sprintf("after the edit, %s still equals the construction over the unedited component (%s)", outer, before))
+					continue
+				}
+				if e.after != nil {
+					if direct := w.mk(e.after()); !outer.Equal(direct) || !direct.Equal(outer) {
+						fail(fmt.Sprintf("after the edit, %s is not equal to %s built directly in the edited shape", outer, direct))
+						continue
+					}
+				}
+				r.Nontrivial("edit-after-query:" + tag)
+			}
+		}
 	}
 }
